@@ -49,6 +49,7 @@ open Srtla Srtla.Gen Srtla.Conn Srtla.Link Srtla.Sys
 abbrev Bytes := List UInt8
 
 variable {F : Type} [Scalar F]
+variable {fa : List (Nat × Nat)}
 
 /-! ## 1. Vocabulary -/
 
@@ -303,6 +304,9 @@ theorem projects_crit (s : Sys F) (d : Nat) : Projects s (.crit d) :=
   projects_frame s _ rfl (fun h => h) rfl rfl rfl
 
 theorem projects_failNext (s : Sys F) (cid : Nat) : Projects s (.failNext cid) :=
+  projects_frame s _ rfl (fun h => h) rfl rfl rfl
+
+theorem projects_failAfter (s : Sys F) (cid k : Nat) : Projects s (.failAfter cid k) :=
   projects_frame s _ rfl (fun h => h) rfl rfl rfl
 
 /-- Injecting a socket re-creation failure touches neither the manager nor the links. -/
@@ -905,6 +909,7 @@ theorem projects (s : Sys F) (e : Ev) (hnr : e.isReload = false) : Projects s e 
   | setCfg cfg => exact projects_setCfg s cfg
   | crit d => exact projects_crit s d
   | failNext cid => exact projects_failNext s cid
+  | failAfter cid kfa => exact projects_failAfter s cid kfa
   | failBind cid => exact projects_failBind s cid
   | stamp idx weak ld ccb cct => exact projects_stamp s idx weak ld ccb cct
   | syncTimeout => exact projects_syncTimeout s
@@ -1395,7 +1400,7 @@ theorem same_of_sameShell {l l' : FLink F} (h : Uplink.SameShell l l') (hid : l'
 /-! ### the data path -/
 
 theorem fwdLink_rf (l : FLink F) (pkt : Link.Bytes) (seq : Option Nat) (now : Nat) (fn : List Nat) :
-    SendRf fn l (Hk.fwdLink l pkt seq now fn).1 ∧ Sub (Hk.fwdLink l pkt seq now fn).2.2 fn := by
+    SendRf fn l (Hk.fwdLink fa l pkt seq now fn).1 ∧ Sub (Hk.fwdLink fa l pkt seq now fn).2.2 fn := by
   have hq := same_queue l pkt seq now
   unfold Hk.fwdLink
   split
@@ -1424,7 +1429,7 @@ theorem forwardVia_rf (s : Sys F) (sel : Nat) (pkt : Sys.Bytes) (seq : Option Na
     exact ⟨Hk.pw_setAt (SendRf.refl _) _ _ l _ hl f1, f2⟩
 
 theorem probeLink_rf (l : FLink F) (pkt : Link.Bytes) (seq : Option Nat) (now : Nat) (fn : List Nat) :
-    SendRf fn l (Hk.probeLink l pkt seq now fn).1 ∧ Sub (Hk.probeLink l pkt seq now fn).2.2 fn := by
+    SendRf fn l (Hk.probeLink fa l pkt seq now fn).1 ∧ Sub (Hk.probeLink fa l pkt seq now fn).2.2 fn := by
   have hp := same_stallProbeDue l
   unfold Hk.probeLink
   split
@@ -1434,8 +1439,8 @@ theorem probeLink_rf (l : FLink F) (pkt : Link.Bytes) (seq : Option Nat) (now : 
 
 theorem stallProbes_rf (pkt : Sys.Bytes) (seq : Option Nat) (now sel : Nat) (ls : List (FLink F)) (i : Nat)
     (fn : List Nat) :
-    Hk.PW (SendRf fn) ls (stallProbesGo pkt seq now sel ls i fn).1 ∧
-    Sub (stallProbesGo pkt seq now sel ls i fn).2.2 fn := by
+    Hk.PW (SendRf fn) ls (stallProbesGo fa pkt seq now sel ls i fn).1 ∧
+    Sub (stallProbesGo fa pkt seq now sel ls i fn).2.2 fn := by
   induction ls generalizing i fn with
   | nil => exact ⟨.nil, Sub.refl _⟩
   | cons l rest ih =>
@@ -1444,7 +1449,7 @@ theorem stallProbes_rf (pkt : Sys.Bytes) (seq : Option Nat) (now sel : Nat) (ls 
     · obtain ⟨h1, h2⟩ := ih (i + 1) fn
       exact ⟨.cons (SendRf.refl _ _) h1, h2⟩
     · obtain ⟨p1, p2⟩ := probeLink_rf l pkt seq now fn
-      obtain ⟨h1, h2⟩ := ih (i + 1) (Hk.probeLink l pkt seq now fn).2.2
+      obtain ⟨h1, h2⟩ := ih (i + 1) (Hk.probeLink fa l pkt seq now fn).2.2
       dsimp only
       refine ⟨.cons p1 (h1.mono (fun a b h => ⟨h.1, h.2.imp id (fun hc => p2 _ hc)⟩)), h2.trans p2⟩
 
@@ -1495,7 +1500,7 @@ theorem client_rf (s : Sys F) (pkt : Sys.Bytes) (now : Nat) :
       · exact ⟨hstage2, f2⟩
 
 theorem flushGo_rf (now : Nat) (ls : List (FLink F)) (fn : List Nat) :
-    Hk.PW SameRf ls (flushGo now ls fn).1 ∧ Sub (flushGo now ls fn).2.2 fn := by
+    Hk.PW SameRf ls (flushGo fa now ls fn).1 ∧ Sub (flushGo fa now ls fn).2.2 fn := by
   induction ls generalizing fn with
   | nil => exact ⟨.nil, Sub.refl _⟩
   | cons l rest ih =>
@@ -1503,7 +1508,7 @@ theorem flushGo_rf (now : Nat) (ls : List (FLink F)) (fn : List Nat) :
     split
     · dsimp only
       obtain ⟨e1, e2⟩ := Hk.sendBatch_cases l now fn
-      obtain ⟨h1, h2⟩ := ih (sendConnectionBatch l now fn).2.2.2
+      obtain ⟨h1, h2⟩ := ih (sendConnectionBatch fa l now fn).2.2.2
       refine ⟨.cons (by rw [e1]; exact same_takeBatch l now) h1, h2.trans ?_⟩
       rcases e2 with ⟨-, efn⟩ | ⟨-, -, efn⟩
       · rw [efn]; exact Sub.refl _
@@ -2045,7 +2050,8 @@ theorem att_frame {i cid D : Nat} {s s' : Sys F} (h : Att i cid D s) (hreg : s'.
 still pending, provided the event injects neither a send failure nor a socket re-creation failure for
 the pending link and a tick's clock is positive; a tick that leaves the attempt pending came before its deadline. -/
 theorem att_step {i cid D : Nat} {s : Sys F} (h : Att i cid D s) (hok : RegOk s.reg) (e : Ev)
-    (hstay : (step s e).1.reg.pending = some i) (hne : e ≠ .failNext cid) (hnb : e ≠ .failBind cid)
+    (hstay : (step s e).1.reg.pending = some i) (hne : e ≠ .failNext cid) (hna : ∀ k, e ≠ .failAfter cid k)
+    (hnb : e ≠ .failBind cid)
     (hpos : ∀ now, e = .hk now → 0 < now) (hnr : e.isReload = false) :
     Att i cid D (step s e).1 ∧ (∀ now, e = .hk now → now < s.reg.pendingTimeoutAt) := by
   cases e with
@@ -2062,6 +2068,15 @@ theorem att_step {i cid D : Nat} {s : Sys F} (h : Att i cid D s) (hok : RegOk s.
     refine ⟨att_frame h rfl rfl ?_ h.nobind, fun _ he => by cases he⟩
     show (c :: s.failNext).contains cid = false
     have hc : c ≠ cid := fun hc => hne (by rw [hc])
+    have := h.nofail
+    simp only [List.contains_eq_mem, List.mem_cons, decide_eq_false_iff_not] at this ⊢
+    rintro (h1 | h1)
+    · exact hc h1.symm
+    · exact this h1
+  | failAfter c kfa =>
+    refine ⟨att_frame h rfl rfl ?_ h.nobind, fun _ he => by cases he⟩
+    show (c :: s.failNext).contains cid = false
+    have hc : c ≠ cid := fun hc => hna kfa (by rw [hc])
     have := h.nofail
     simp only [List.contains_eq_mem, List.mem_cons, decide_eq_false_iff_not] at this ⊢
     rintro (h1 | h1)
@@ -2097,7 +2112,7 @@ theorem att_step {i cid D : Nat} {s : Sys F} (h : Att i cid D s) (hok : RegOk s.
 
 /-- **Run form.**  Start observing in any reachable state in which uplink `i` is pending with deadline
 `D` (e.g. right after the first REG1 of the attempt at `t0`: `D = t0 + 4000`).  Along every
-continuation in which the attempt stays pending, no send failure and no socket re-creation failure is
+continuation in which the attempt stays pending, no send failure (plain or partial) and no socket re-creation failure is
 injected for the pending link (a failed re-creation of a never-established link is retried after
 1000 ms and re-sends REG1 each time, renewing the wait) and tick clocks are positive: the deadline is renewed at most once and stays below `D + 4000`; and every
 housekeeping tick that left the attempt pending had `now < D + 3999`. -/
@@ -2108,31 +2123,35 @@ theorem abandon_bound {s0 : Sys F} (h0 : Startup s0) (i D : Nat) (l : FLink F) :
       (runS s0 evs1).failBind.contains l.core.connId = false →
       Unanswered i (runS s0 evs1) evs2 →
       (∀ e ∈ evs2, e ≠ .failNext l.core.connId ∧ ∀ now, e = .hk now → 0 < now) →
+      (∀ e ∈ evs2, ∀ k, e ≠ .failAfter l.core.connId k) →
       (∀ e ∈ evs2, e ≠ .failBind l.core.connId) →
       Att i l.core.connId D (runS s0 (evs1 ++ evs2)) ∧
       ∀ pre now post, evs2 = pre ++ Ev.hk now :: post → now < D + 3999 := by
   have key : ∀ (evs2 evs1 : List Ev), NoReload evs1 → NoReload evs2 → Att i l.core.connId D (runS s0 evs1) →
       Unanswered i (runS s0 evs1) evs2 →
       (∀ e ∈ evs2, e ≠ .failNext l.core.connId ∧ ∀ now, e = .hk now → 0 < now) →
+      (∀ e ∈ evs2, ∀ k, e ≠ .failAfter l.core.connId k) →
       (∀ e ∈ evs2, e ≠ .failBind l.core.connId) →
       Att i l.core.connId D (runS s0 (evs1 ++ evs2)) ∧
       ∀ pre now post, evs2 = pre ++ Ev.hk now :: post → now < D + 3999 := by
     intro evs2
     induction evs2 with
     | nil =>
-      intro evs1 _ _ hA _ _ _
+      intro evs1 _ _ hA _ _ _ _
       rw [List.append_nil]
       exact ⟨hA, fun pre now post h => by cases pre <;> cases h⟩
     | cons e es ih =>
-      intro evs1 hn1 hn2 hA hun hev hevb
+      intro evs1 hn1 hn2 hA hun hev heva hevb
       obtain ⟨hstay, hun'⟩ := hun
       obtain ⟨hne, hpos⟩ := hev e (by simp)
-      obtain ⟨hA', htick⟩ := att_step hA (regOk_run h0 evs1 hn1) e hstay hne (hevb e (by simp)) hpos hn2.head
+      obtain ⟨hA', htick⟩ := att_step hA (regOk_run h0 evs1 hn1) e hstay hne (heva e (by simp)) (hevb e (by simp)) hpos
+        hn2.head
       have hrun : runS s0 (evs1 ++ [e]) = (step (runS s0 evs1) e).1 := by rw [runS_append]; rfl
       have hn1' : NoReload (evs1 ++ [e]) := hn1.append (fun x hx => by
         rw [List.mem_singleton] at hx; subst hx; exact hn2.head)
       obtain ⟨r1, r2⟩ := ih (evs1 ++ [e]) hn1' hn2.tail (by rw [hrun]; exact hA') (by rw [hrun]; exact hun')
-        (fun e' he' => hev e' (by simp [he'])) (fun e' he' => hevb e' (by simp [he']))
+        (fun e' he' => hev e' (by simp [he'])) (fun e' he' => heva e' (by simp [he']))
+        (fun e' he' => hevb e' (by simp [he']))
       rw [List.append_assoc] at r1
       refine ⟨r1, ?_⟩
       intro pre now post hsplit
@@ -2145,8 +2164,8 @@ theorem abandon_bound {s0 : Sys F} (h0 : Startup s0) (i D : Nat) (l : FLink F) :
       | cons p ps =>
         simp only [List.cons_append, List.cons.injEq] at hsplit
         exact r2 ps now post hsplit.2
-  intro evs2 evs1 hn1 hn2 hp hD hl hnf hnb hun hev hevb
-  exact key evs2 evs1 hn1 hn2 ⟨hp, hnf, hnb, l, hl, rfl, Or.inl hD⟩ hun hev hevb
+  intro evs2 evs1 hn1 hn2 hp hD hl hnf hnb hun hev heva hevb
+  exact key evs2 evs1 hn1 hn2 ⟨hp, hnf, hnb, l, hl, rfl, Or.inl hD⟩ hun hev heva hevb
 
 /-- **One housekeeping tick while uplink `i` is pending** (shell form of `Reg.tick_deadline`): from the
 deadline on the tick abandons the attempt; before it the attempt stays on `i` and the deadline is
